@@ -145,6 +145,11 @@ class Gen:
         return out
 
     def arg_spec(self):
+        if self.usable and self.coin(self.p.get("p_shared_list", 0.0)):
+            # the running-totals idiom: the same list object, grown / changed between uses (always holds a node)
+            items = [["n", self.rng.choice(self.usable)]] + [self.leaf() for _ in range(self.rng.randrange(0, 3))]
+            self.rng.shuffle(items)
+            return ["M", self.rng.choice(["acc1", "acc2"]), items]
         if self.coin(self.p["p_nested"]):
             return self.nested()
         return self.leaf()
@@ -159,6 +164,10 @@ class Gen:
         if self.coin(p["p_kw"]):
             names = self.rng.sample(["z", "a", "m", "k", "b"], self.rng.randrange(1, 4))
             kwargs = [[nm, self.arg_spec()] for nm in names]
+        # (a shared list is changed BETWEEN calls: within one call's arguments each list object appears once)
+        used = set()
+        args = [_once_per_call(a, used) for a in args]
+        kwargs = [[nm, _once_per_call(a, used)] for nm, a in kwargs]
         ret = "val"
         if self.coin(p["p_const"]):
             ret = ["const", self.rng.choice([0, 1, "k"])]
@@ -386,6 +395,14 @@ class Gen:
             return ["n", self.rng.choice(self.usable)]
         s = self.nested()
         return s
+
+
+def _once_per_call(spec, used):
+    if spec[0] == "M":
+        if spec[1] in used:
+            return ["L", spec[2]]
+        used.add(spec[1])
+    return spec
 
 
 def _build_key(spec):
